@@ -1,3 +1,5 @@
+import ast
+
 import pyparsing
 from miasm.expression.expression import ExprInt, ExprId, ExprLoc, ExprSlice, \
     ExprMem, ExprCond, ExprCompose, ExprOp, ExprAssign, LocKey
@@ -35,11 +37,10 @@ T_INF = pyparsing.Suppress("<")
 T_SUP = pyparsing.Suppress(">")
 
 
-string_quote = pyparsing.QuotedString(quoteChar="'", escChar='\\', escQuote='\\')
-string_dquote = pyparsing.QuotedString(quoteChar='"', escChar='\\', escQuote='\\')
-
-
-string = string_quote | string_dquote
+# A name is written by repr(): a Python str or bytes literal
+string = pyparsing.Regex(
+    r"""[bB]?(?:'(?:[^'\\\n]|\\.)*'|"(?:[^"\\\n]|\\.)*")"""
+).setParseAction(lambda t: ast.literal_eval(t[0]))
 
 expr = pyparsing.Forward()
 
